@@ -46,6 +46,15 @@ CHECKS["C15"] = dict(
     technique="CrossHair+z3 over symbolic constants (ints unbounded, bytes<=3) with VM/genops read-back; known-findings list for recorded encoder defects",
     design="§4 C15")
 
+CHECKS["C02"] = dict(
+    text="Bounded symbolic execution of the real loader.load / run_hook / FicklingContextManager / check_safety / "
+         "AnalysisResults / Severity.__le__ with the rule set stubbed to return a solver-chosen list of severities or to raise, "
+         "pickle.loads/load replaced by spies and an adversarial stream rewritten at analysis time: for every verdict (<=2 findings), "
+         "all six thresholds, every payload byte and rewrite byte, 3 armings x 3 stream kinds, each gate lemma is Confirmed over all "
+         "paths. A second lemma runs the real rules and the real unpickler on inert sink globals.",
+    technique="CrossHair+z3 gate lemmas with stub verdict/fault, spy unpickler and TOCTOU stream; native replay",
+    design="§4 C02")
+
 NOT_APPLICABLE = {
     "C16": "every observable sits behind zipfile/zlib/torch C-level I/O; symbolic inputs are realised at the first call so the solver has nothing to decide (DESIGN §5); the pickle-level half is covered by C08",
 }
